@@ -110,8 +110,8 @@ fn main() {
                 "stream" | "stream_random" => if prop == "C05" { termination::replay(&ctx, case) } else { streams::replay(&ctx, case) },
                 "exact" => exact::replay(&ctx, case),
                 "ctor" => ctors::replay(&ctx, case),
-                "tree_freq" | "alias_sample" | "alias_stream" => { eprintln!("frequency cases are re-run by the check itself (seeded)"); false }
-                "alias" | "tree" | "tree_sample" => weighted::replay(&ctx, case),
+                "tree_freq" | "alias_sample" => { eprintln!("frequency cases are re-run by the check itself (seeded)"); false }
+                "alias" | "alias_stream" | "tree" | "tree_sample" => weighted::replay(&ctx, case),
                 "affine" => affine::replay(&ctx, case),
                 "dirichlet" | "geom" => multi::replay(&ctx, case),
                 "schedule" => purity::replay(&ctx, case),
